@@ -198,13 +198,19 @@ def run_one(seed, tape, opts):
     hs = list(hs) + [h for h in (bogus(), bogus()) if h]
     hr = list(hr) + [h for h in (bogus(),) if h]
     # strangers
-    nstr = tape.choose(4, "nstr") if not focus else 0
+    nstr = tape.choose(4, "nstr") if not focus else tape.choose(3, "nstr_f")
     strangers = []
     wrongkey_parties = []
     for i in range(nstr):
         kind = tape.pick(STRANGER_KINDS, "skind")
         dial_in = tape.choose(2, "sdir") == 0
         victim_is_sender = tape.choose(2, "svict") == 0
+        if focus:
+            # the relay is the only real path, but a stale direct hint leads
+            # to somebody who accepts the connection and then stalls (still
+            # undecided when the delayed relay attempts are due)
+            kind = tape.pick(("silent", "prefix", "slowloris"), "skind_f")
+            dial_in = False
         if kind == "nevermind":
             victim_is_sender = False
         if kind == "fake_relay":
